@@ -262,14 +262,34 @@ bool Position::move_is_capture(Move move) const
 
 bool Position::move_gives_check(Move move) const
 {
+    const Square king_sq = piece_position(make_piece(!color(), KING));
+    const Bitboard king_bb = square_bb(king_sq);
+
+    // castling: the move encodes no squares, only the rook can give check
+    if (castling(move) != NO_CASTLING)
+    {
+        Square old_king_sq = piece_position(make_piece(color(), KING));
+        Square old_rook_sq = make_square(color() == WHITE ? RANK_1 : RANK_8,
+                                        castling(move) & KING_CASTLING ? FILE_H : FILE_A);
+        Square my_king_sq = make_square(color() == WHITE ? RANK_1 : RANK_8,
+                                        castling(move) & KING_CASTLING ? FILE_G : FILE_C);
+        Square my_rook_sq = make_square(color() == WHITE ? RANK_1 : RANK_8,
+                                        castling(move) & KING_CASTLING ? FILE_F : FILE_D);
+
+        Bitboard blockers = pieces() ^ square_bb(old_king_sq) ^ square_bb(old_rook_sq) ^ square_bb(my_king_sq) ^ square_bb(my_rook_sq);
+        return bool(slider_attack<ROOK>(my_rook_sq, blockers) & king_bb);
+    }
+
     const Square from_sq = from(move);
     const Square to_sq = to(move);
-    const PieceKind moved_piece_kind = make_piece_kind(piece_at(from_sq));
-    const Square king_sq = piece_position(make_piece(!color(), KING));
+    // a promoting pawn checks as the piece it becomes
+    const PieceKind moved_piece_kind = promotion(move) != NO_PIECE_KIND
+                                           ? promotion(move)
+                                           : make_piece_kind(piece_at(from_sq));
     const Bitboard from_bb = square_bb(from_sq);
     const Bitboard to_bb = square_bb(to_sq);
-    const Bitboard king_bb = square_bb(king_sq);
-    Bitboard blockers = pieces();
+    // the moving piece no longer stands on its origin square
+    Bitboard blockers = pieces() ^ from_bb;
 
     // direct check
     switch (moved_piece_kind)
@@ -298,7 +318,7 @@ bool Position::move_gives_check(Move move) const
         default: assert(false);
     }
 
-    blockers = (blockers ^ from_bb) | to_bb;
+    blockers |= to_bb;
 
     // discovered check
     if (slider_attack<BISHOP>(king_sq, blockers) & pieces(color(), BISHOP, QUEEN))
@@ -307,7 +327,7 @@ bool Position::move_gives_check(Move move) const
         return true;
 
     // enpassant
-    if (moved_piece_kind == PAWN && to_sq == enpassant_square())
+    if (make_piece_kind(piece_at(from_sq)) == PAWN && to_sq == enpassant_square())
     {
         const Bitboard captured_bb = square_bb(make_square(rank(from_sq), file(to_sq)));
         blockers = blockers ^ captured_bb;
@@ -315,22 +335,6 @@ bool Position::move_gives_check(Move move) const
         if (slider_attack<BISHOP>(king_sq, blockers) & pieces(color(), BISHOP, QUEEN))
             return true;
         if (slider_attack<ROOK>(king_sq, blockers) & pieces(color(), ROOK, QUEEN))
-            return true;
-    }
-
-    // castling
-    if (castling(move) != NO_CASTLING)
-    {
-        Square old_king_sq = piece_position(make_piece(color(), KING));
-        Square old_rook_sq = make_square(color() == WHITE ? RANK_1 : RANK_8,
-                                        castling(move) & KING_CASTLING ? FILE_H : FILE_A);
-        Square my_king_sq = make_square(color() == WHITE ? RANK_1 : RANK_8,
-                                        castling(move) & KING_CASTLING ? FILE_G : FILE_C);
-        Square my_rook_sq = make_square(color() == WHITE ? RANK_1 : RANK_8,
-                                        castling(move) & KING_CASTLING ? FILE_F : FILE_D);
-
-        blockers = pieces() ^ square_bb(old_king_sq) ^ square_bb(old_rook_sq) ^ square_bb(my_king_sq) ^ square_bb(my_rook_sq);
-        if (slider_attack<ROOK>(my_rook_sq, blockers) & king_bb)
             return true;
     }
 
